@@ -261,8 +261,10 @@ func filterMethodCall(blockContext antlr.Tree) {
 }
 
 func buildRestApiWithParameters(ctx *parser.MethodDeclarationContext) {
-	parameterList := ctx.FormalParameters().GetChild(1).(*parser.FormalParameterListContext)
-	formalParameter := parameterList.AllFormalParameter()
+	var formalParameter []parser.IFormalParameterContext
+	if formalParameters, ok := ctx.FormalParameters().(*parser.FormalParametersContext); ok && formalParameters.FormalParameterList() != nil {
+		formalParameter = formalParameters.FormalParameterList().(*parser.FormalParameterListContext).AllFormalParameter()
+	}
 	for _, param := range formalParameter {
 		paramContext := param.(*parser.FormalParameterContext)
 
